@@ -512,9 +512,10 @@ def stb99_ops(rng, tier, f, prefix):
             g = list(par)
             g[i] = flip(par[i], bt)
             add(g, "flip-" + nm)
-        g = list(par)
-        g[i] = flip(par[i], 8 * width + rng.randrange(8))
-        add(g, "tail-" + nm)
+        if 2 * width < len(par[i]):
+            g = list(par)
+            g[i] = flip(par[i], 8 * width + rng.randrange(8))
+            add(g, "tail-" + nm)
     z = "00" * 308
     for k, aa, dd in (("a=d=0", 0, 0), ("a=0", 0, d), ("d=0", a, 0), ("d=1", a, 1), ("a=unity,d=unity", (1 << (l + 2)) % p, (1 << (l + 2)) % p),
                       ("a+p", a + p, d), ("d+p", a, d + p), ("a<->d", d, a), ("a=p-a", p - a, d)):
@@ -922,6 +923,16 @@ def generate(ctx, std, bels, lr_stb, lr_pfok):
             else:
                 ops.append(Op("pfokval " + " ".join(f[:5]), "0", prefix + ":std"))
                 ops.append(Op("pfokseedval " + " ".join(f[5:8]), "0", prefix + ":seed:std"))
+    # parameter generation from the standard seeds must reproduce the standard parameters (implementation only:
+    # prngSTB / priExtendPrime are not modelled; klass prefix "gen:" = not sent to the Lean driver)
+    for (sch, name), f in std.items():
+        if sch == "stb99" and (tier != "quick" or name in ("test", "1.2.112.0.2.0.1176.2.3.3.1", "1.2.112.0.2.0.1176.2.3.6.1")):
+            ops.append(Op("stb99gen " + " ".join(f[6:10]), "0 " + " ".join(f[:6]), "gen:stb99-" + name))
+            g = list(f[6:10])
+            z = g[1].split(",")
+            z[0] = str(int(z[0]) % 65256 + 1)
+            g[1] = ",".join(z)
+            ops.append(Op("stb99gen " + " ".join(g), None, "gen:stb99-other-zi-" + name))
     ops += bign_custom_field_ops(rng, tier)
     ops += poly_ops(rng, tier, bels)
     for W in (64, 32):
